@@ -95,7 +95,14 @@ def write_readme():
         first = (m.get("needs_to_manifest") or "").strip().splitlines()
         title = first[0][:110] if first else ""
         sig = (det[0]["signatures"][0] if det and det[0].get("signatures") else "")[:90]
-        status = "detected" if det else ("not flagged on purpose" if m.get("declined") else "MISSED")
+        other = [r for r in m.get("check_runs", []) if r.get("property") != m["property"] and r.get("result") == "DETECTED"]
+        if not det and other:
+            # the change breaks the property it was written for only through a history / route that another property owns
+            det = other[:1]
+            sig = (det[0]["signatures"][0] if det[0].get("signatures") else "")[:90]
+            status = f"detected by {det[0]['property']}"
+        else:
+            status = "detected" if det else ("not flagged on purpose" if m.get("declined") else "MISSED")
         rows.append(f"| {m['id']} | {m['property']} | {title} | {status} | `{sig}` | {m.get('strengthened', '') or m.get('declined', '')} |")
     text = (
         "# Independently seeded changes\n\n"
